@@ -716,4 +716,140 @@ theorem replayAux_corrupt (cfg : Cfg) (hcrc : cfg.crcOn = true) (stop s0 p c len
                 simp only [walkAux, he, Bool.false_eq_true, if_false, hp, List.mem_cons]
                 right; exact h2
 
+/-- positions only matter relative to the stop position -/
+theorem replayAux_shift (cfg : Cfg) (d : Nat) (fuel : Nat) : ∀ (stop : Nat) (rest : Bytes) (pos : Nat) (first : Bool) (m : Bytes),
+    replayAux cfg (stop + d) fuel rest (pos + d) first m = replayAux cfg stop fuel rest pos first m := by
+  induction fuel with
+  | zero => intro stop rest pos first m; rfl
+  | succ n ih =>
+    intro stop rest pos first m
+    simp only [replayAux]
+    have e : ∀ adv, pos + d + adv = (pos + adv) + d := by intro adv; omega
+    have e2 : (stop + d = pos + d) = (stop = pos) := by apply propext; constructor <;> intro h <;> omega
+    simp only [e, ih, e2]
+
+/-- the `i == 0` test is vacuous when the log starts with a separator -/
+theorem replayAux_first (cfg : Cfg) (stop fuel : Nat) (rest : Bytes) (pos : Nat) (m : Bytes)
+    (h : rest.headD 0 = WOP_SEP) :
+    replayAux cfg stop fuel rest pos true m = replayAux cfg stop fuel rest pos false m := by
+  cases fuel with
+  | zero => rfl
+  | succ n => simp only [replayAux, h, bne_self_eq_false, Bool.and_false, Bool.false_eq_true, if_false]
+
+theorem prescanAux_first (fuel : Nat) (rest : Bytes) (pos fp rp : Nat) (h : rest.headD 0 = WOP_SEP) :
+    prescanAux fuel rest pos true fp rp = prescanAux fuel rest pos false fp rp := by
+  cases fuel with
+  | zero => rfl
+  | succ n => simp only [prescanAux, h, bne_self_eq_false, Bool.and_false, Bool.false_eq_true, if_false]
+
+/-- A pre-scan whose answer lies beyond the record boundary `q` of the uncut log is the pre-scan continued from `q`. -/
+theorem prescanAux_pass (fuel : Nat) : ∀ (rest : Bytes) (k pos : Nat) (first : Bool) (fp rp q : Nat) (rq : Rec),
+    rest.length ≤ fuel → k ≤ rest.length →
+    (q, rq) ∈ walkAux fuel rest pos → fp ≤ q →
+    q < (prescanAux fuel (rest.take k) pos first fp rp).1 →
+    ∃ fp' rp', fp' ≤ q ∧
+      prescanAux fuel (rest.take k) pos first fp rp =
+        prescanAux fuel ((rest.drop (q - pos)).take (k - (q - pos))) q (first && decide (q = pos)) fp' rp' := by
+  induction fuel with
+  | zero => intro rest k pos first fp rp q rq _ _ hmem; simp [walkAux] at hmem
+  | succ n ih =>
+    intro rest k pos first fp rp q rq hfl hkl hmem hfp hres
+    have hge := walkAux_pos_ge _ _ _ _ _ hmem
+    by_cases hq : q = pos
+    · subst hq
+      refine ⟨fp, rp, hfp, ?_⟩
+      simp
+    · have hlt : pos < q := by omega
+      simp only [walkAux] at hmem
+      cases he2 : rest.isEmpty with
+      | true => simp [he2] at hmem
+      | false =>
+        simp only [he2, Bool.false_eq_true, if_false] at hmem
+        cases hp2 : parse rest with
+        | none => simp [hp2] at hmem
+        | some ra =>
+          obtain ⟨r, adv⟩ := ra
+          simp only [hp2, List.mem_cons, Prod.mk.injEq] at hmem
+          have htail : (q, rq) ∈ walkAux n (rest.drop adv) (pos + adv) := by
+            rcases hmem with ⟨h1, _⟩ | h
+            · omega
+            · exact h
+          have hge2 := walkAux_pos_ge _ _ _ _ _ htail
+          have h4 := parse_adv_pos hp2
+          generalize hf : prescanAux (n + 1) (rest.take k) pos first fp rp = res at hres ⊢
+          simp only [prescanAux] at hf
+          cases he : (rest.take k).isEmpty with
+          | true => simp only [he, if_true] at hf; subst hf; simp only at hres; omega
+          | false =>
+            simp only [he, Bool.false_eq_true, if_false] at hf
+            split at hf
+            · subst hf; simp only at hres; omega
+            · cases hp : parse (rest.take k) with
+              | none => simp only [hp] at hf; subst hf; simp only at hres; omega
+              | some ra' =>
+                obtain ⟨r', adv'⟩ := ra'
+                have ⟨hp2', _⟩ := parse_of_take k hp
+                rw [hp2] at hp2'
+                simp only [Option.some.injEq, Prod.mk.injEq] at hp2'
+                obtain ⟨hr, ha⟩ := hp2'
+                subst hr; subst ha
+                simp only [hp] at hf
+                have hdrop : (rest.take k).drop adv = (rest.drop adv).take (k - adv) := List.drop_take ..
+                have hlen' := drop_len_lt h4 he2 hfl
+                have hkl' : k - adv ≤ (rest.drop adv).length := by simp; omega
+                have hdd : (rest.drop adv).drop (q - (pos + adv)) = rest.drop (q - pos) := by
+                  rw [List.drop_drop]; congr 1; omega
+                have hkk : k - adv - (q - (pos + adv)) = k - (q - pos) := by omega
+                have hb : (false && decide (q = pos + adv)) = (first && decide (q = pos)) := by simp [hq]
+                rw [hdrop] at hf
+                by_cases hsp : r = Rec.savepoint
+                · simp only [hsp, if_true] at hf
+                  split at hf
+                  · subst hf; simp only at hres; omega
+                  · subst hf
+                    obtain ⟨fp', rp', h1, h2⟩ := ih _ _ _ false pos rp q rq hlen' hkl' htail (by omega) hres
+                    rw [hdd, hkk, hb] at h2
+                    exact ⟨fp', rp', h1, by rw [h2, prescanAux_fuel n (n + 1)] <;> (simp; omega)⟩
+                · by_cases hrs : r = Rec.reset
+                  · simp only [hrs, if_true, reduceCtorEq, if_false] at hf
+                    split at hf
+                    · subst hf; simp only at hres; omega
+                    · subst hf
+                      obtain ⟨fp', rp', h1, h2⟩ := ih _ _ _ false fp pos q rq hlen' hkl' htail hfp hres
+                      rw [hdd, hkk, hb] at h2
+                      exact ⟨fp', rp', h1, by rw [h2, prescanAux_fuel n (n + 1)] <;> (simp; omega)⟩
+                  · simp only [hsp, hrs, if_false] at hf
+                    subst hf
+                    obtain ⟨fp', rp', h1, h2⟩ := ih _ _ _ false fp rp q rq hlen' hkl' htail hfp hres
+                    rw [hdd, hkk, hb] at h2
+                    exact ⟨fp', rp', h1, by rw [h2, prescanAux_fuel n (n + 1)] <;> (simp; omega)⟩
+
+/-- a position of the walk is a position where `parse` succeeds on the rest of the log -/
+theorem walkAux_mem_parse (fuel : Nat) : ∀ (rest : Bytes) (pos q : Nat) (r : Rec), (q, r) ∈ walkAux fuel rest pos →
+    ∃ adv, parse (rest.drop (q - pos)) = some (r, adv) := by
+  induction fuel with
+  | zero => intro rest pos q r h; simp [walkAux] at h
+  | succ n ih =>
+    intro rest pos q r h
+    simp only [walkAux] at h
+    split at h
+    · simp at h
+    · split at h
+      · simp at h
+      · rename_i r' adv hp
+        simp only [List.mem_cons, Prod.mk.injEq] at h
+        rcases h with ⟨h1, h2⟩ | h
+        · subst h1; subst h2; exact ⟨adv, by simpa using hp⟩
+        · have hge := walkAux_pos_ge _ _ _ _ _ h
+          obtain ⟨a, ha⟩ := ih _ _ _ _ h
+          refine ⟨a, ?_⟩
+          rw [List.drop_drop] at ha
+          have : adv + (q - (pos + adv)) = q - pos := by omega
+          rw [this] at ha; exact ha
+
+theorem parse_sep_head {rest : Bytes} {c l adv : Nat} (h : parse rest = some (Rec.sep c l, adv)) : rest.headD 0 = WOP_SEP := by
+  unfold parse at h
+  simp only [sz_WBSEP, sz_WBSET, sz_WBCOPY, sz_WBWRITE, sz_WBRESIZE, sz_WBSAVEPOINT, sz_WBRESET] at h
+  grind
+
 end IwModel.Wal
